@@ -60,6 +60,9 @@ CHECKS = {
              text="RESTRICTED CLAIM. Export: for documents of the list schema whose text and attribute strings are built from symbolic characters of {a < & \" ' > space}, symbolic heading level / list start and symbolic mark bits, serialisation never raises and the output equals a reference serialiser (escaping of & < > quotes in text and attribute values, marks re-opened in order). Context expressions: for 12 expressions and every ancestor stack up to depth 3 (thorough 4) matches_context terminates (step budget) and agrees with an independent matcher of the documented grammar. NOT claimed: totality/validity of parsing, list normalisation, whitespace handling, pending marks, export-then-import identity (see not_applicable).",
              ref="5/C19",
              note="Only the pure-Python export and context-matching code is symbolically reachable; everything operating on lxml elements realises its input at the C boundary and is declared not applicable rather than checked by another technique."),
+ "C07": dict(technique="CrossHair symbolic execution of Node.can_replace/can_replace_with/can_append/check, NodeType.valid_content/create_checked, Schema.node (child indices, fragment sub-range, type index, mark bits, mutation choice symbolic) against the validator derived from the spec dictionaries",
+             text="For every non-leaf node of every catalogue document as parent, every catalogue fragment and sub-range, every index range, candidate type and mark subset, each predicate answers true exactly when the resulting child sequence matches the parent's content expression (own regex translation) and the parent allows the inserted marks; check() raises exactly on the single-mutation variants the validator rejects (content, forbidden marks, non-canonical mark sets); the checked constructors fail exactly when valid_content is false.",
+             ref="4/C07"),
 }
 CHECKS_END = None
 
